@@ -307,6 +307,21 @@ def main(replay=None):
             casesO.append((w, kind, "%s = 7; %s" % (w, w), use, "empty", "full"))
             # the word is an operator in P's instance, a variable in Q's
             casesO.append((w, kind, use + ' diag_log "after";', "%s = 1; diag_log str %s;" % (w, w), "full", "basic"))
+    if not replay:
+        # what an instance of ANOTHER operator set that was created (and used) earlier in the process leaves behind must not show in
+        # a later instance either: containers keyed by values of many types print in the same order (hash / type registration order)
+        HASH_P = [
+            'private _m = createHashMapFromArray [[objNull, 1], [grpNull, 2], [west, 3], [east, 4], ["a", 5], [7, 6], [true, 7], [configFile, 8], [civilian, 9], [[1,2], 10], [scriptNull, 11], [{1}, 12]]; '
+            'diag_log str (keys _m); diag_log str _m; { diag_log str _x } forEach (keys _m)',
+            'private _m = createHashMap; { _m set [_x, _forEachIndex] } forEach [west, 1, "b", east, false, sideUnknown, 2, "c", resistance, 0, "", objNull, grpNull, [3], configNull]; '
+            'diag_log str (keys _m); diag_log str _m',
+            'private _m = createHashMapFromArray [[createHashMap, 1], [createHashMapFromArray [[1,2]], 2], ["k", 3], [5, 4], [objNull, 5], [west, 6], [true, 7], [[], 8]]; diag_log str (keys _m); diag_log str _m',
+            'private _m = createHashMapFromArray [["k", 3], [5, 4], [true, 7], [[], 8], [[1], 9], [false, 10], ["", 11], [0, 12], [configFile, 13], [{2}, 14], [createHashMap, 15]]; diag_log str (keys _m); diag_log str _m',
+        ]
+        HASH_Q = 'private _h = createHashMapFromArray [["q", 1], [2, 3], [true, 4]]; diag_log str _h; diag_log str (keys _h)'
+        for tp in HASH_P:
+            for sp, sq in (("full", "basic"), ("full", "empty"), ("basic", "full"), ("basic", "empty")):
+                casesO.append(("(hashmap keyed by values of many types)", "H", tp, HASH_Q if sq != "empty" else "q = 1; q", sp, sq))
     il = []
     for w, kind, tp, tq, sp, sq in casesO:
         for m in ("alone", "after", "twice", "beside", "alone"):
@@ -323,9 +338,14 @@ def main(replay=None):
         evaluations += 3
         distinct.add(("O", w, sp))
         for m in ("after", "twice", "beside"):
-            if r[m] != r["alone"] and (sp, sq, m) not in flaggedO:
-                flaggedO.add((sp, sq, m))
+            if r[m] != r["alone"] and (sp, sq, m, kind == "H") not in flaggedO:
+                flaggedO.add((sp, sq, m, kind == "H"))
                 rep = {"family": "O", "word": w, "kind": kind, "text_p": tp, "text_q": tq, "set_p": sp, "set_q": sq, "impl": r, "mode": m}
+                if kind == "H":
+                    run.violation("output(P in a fresh %s instance) differs when an instance with the %s operator set was created and used %s in the same process: a hashmap keyed by values of "
+                                  "several types prints / iterates in another order (what the earlier instance registered first decides it)" % (
+                                      sp, sq, {"after": "before it", "beside": "beside it on another thread", "twice": "(P itself) before it"}[m]), rep)
+                    break
                 run.violation("output(P in a fresh %s instance) differs when Q ran %s in a %s instance of the same process: `%s` is %s in one operator set and "
                               "a plain identifier in the other, and what one instance registered / read decides how the other reads the word" % (
                                   sp, {"after": "before it", "beside": "beside it on another thread", "twice": "(P itself) before it"}[m], sq, w,
